@@ -345,24 +345,42 @@ type PackOpts struct {
 type packer struct {
 	b   []byte
 	tbl map[string]int
+	// dep: through how many pointers the name at tbl[suffix] is read.  A
+	// well-behaved server does not build chains that decoders refuse to follow
+	// (ten pointers is a common limit): a suffix reached through maxChain
+	// pointers is written out again instead of being pointed at.
+	dep map[string]int
 }
 
+const maxChain = 8
+
 func (p *packer) name(n Name, compress bool) {
+	if p.dep == nil {
+		p.dep = map[string]int{}
+	}
+	var added []string
+	depth := 0
+	defer func() {
+		for _, s := range added {
+			p.dep[s] = depth
+		}
+	}()
 	for i := 0; i < len(n); {
 		l := int(n[i])
 		if l == 0 {
 			break
 		}
 		suffix := string(n[i:])
-		if compress {
-			if off, ok := p.tbl[suffix]; ok {
-				p.b = append(p.b, byte(0xC0|off>>8), byte(off))
-				return
-			}
+		off, known := p.tbl[suffix]
+		if compress && known && p.dep[suffix] < maxChain {
+			p.b = append(p.b, byte(0xC0|off>>8), byte(off))
+			depth = p.dep[suffix] + 1
+			return
 		}
 		if len(p.b) < 0x4000 {
-			if _, ok := p.tbl[suffix]; !ok {
+			if !known || p.dep[suffix] >= maxChain {
 				p.tbl[suffix] = len(p.b)
+				added = append(added, suffix)
 			}
 		}
 		p.b = append(p.b, n[i:i+1+l]...)
